@@ -258,6 +258,7 @@ class ColumnInfo(Immutable):
             and self._categories == other._categories
             and self._drop == other._drop
             and self._datatype == other._datatype
+            and self._descriptor == other._descriptor
         )
 
     def __hash__(self):
